@@ -134,7 +134,7 @@ def check(run):
     for a in arms:
         if q.callee_name(a) == handlers.TIMER_WAIT:
             ex = [c for c in bs.calls() if (q.callee_name(c) or '').endswith('high_resolution_timer::expires_at') and q.render(bs, c.get('obj')) == q.render(bs, a.get('obj'))]
-            run.check(any(q.precedes(bs, c, a) and bs.cfg.node_block(c) == bs.cfg.node_block(a) for c in ex), 'R10', 'queue-timer-armed-before-wait', bs.norm, bs.loc(a), 'async_wait without expires_at in the same block', 'expires_at precedes async_wait')
+            run.check(any(q.precedes(bs, c, a) and q.paired(bs, c, a) for c in ex), 'R10', 'queue-timer-armed-before-wait', bs.norm, bs.loc(a), 'async_wait without expires_at in the same block', 'expires_at precedes async_wait')
 
     run.clause('zero bandwidth takes the no-serialisation branch: no division by m_bandwidth is reachable when m_bandwidth == 0')
     # divisions whose divisor is m_bandwidth, in the sender itself or in a helper it passes m_bandwidth to
